@@ -221,7 +221,24 @@ func (obj *SparseReal32Vector) Slice(i, j int) Vector {
   return obj.SLICE(i, j)
 }
 func (obj *SparseReal32Vector) Swap(i, j int) {
-  obj.values[i], obj.values[j] = obj.values[j], obj.values[i]
+  v1, ok1 := obj.values[i]
+  v2, ok2 := obj.values[j]
+  switch {
+  case ok1 && ok2:
+    obj.values[i], obj.values[j] = v2, v1
+  case ok1:
+    // only position i has an entry, move it to j
+    obj.values[j] = v1
+    obj.indexInsert(j)
+    delete(obj.values, i)
+    obj.indexDelete(i)
+  case ok2:
+    // only position j has an entry, move it to i
+    obj.values[i] = v2
+    obj.indexInsert(i)
+    delete(obj.values, j)
+    obj.indexDelete(j)
+  }
 }
 func (obj *SparseReal32Vector) AppendScalar(scalars ...Scalar) Vector {
   r := obj.Clone()
